@@ -5,7 +5,7 @@
 From Coq Require Import List ZArith Bool Permutation.
 From LJT Require Import lib.Sweep gen.GenIccConst model.MarkerRT model.Icc model.CopyMarkers model.TjHeader model.MarkerSuspend
   proofs.MarkerSuspendProofs proofs.CopyHistory model.CopyMulti model.MarkerSeq model.MarkerTrace
-  proofs.CopyMultiProofs proofs.MarkerSeqProofs proofs.MarkerTraceProofs
+  proofs.CopyMultiProofs proofs.MarkerSeqProofs proofs.MarkerTraceProofs model.MarkerScan proofs.MarkerScanProofs
   proofs.TjProofs proofs.C16Consts proofs.IccProofs proofs.IccRoundTrip proofs.IccFast proofs.MarkerProofs proofs.CopyProofs proofs.HeaderProofs.
 Import ListNotations.
 Local Open Scope Z_scope.
@@ -435,6 +435,27 @@ Theorem C16_jfxx_trace : forall ext extra, is_byte ext ->
   else if ext =? 19 then [TrThumbRgb (6 + Zlength extra)] else [TrJfifExt ext (6 + Zlength extra)].
 Proof. exact jfxx_trace. Qed.
 Print Assumptions C16_jfxx_trace.
+
+(* ---- round 4: the marker scanner itself (jdmarker.c next_marker / first_marker), on EVERY byte string.  Terminates
+   (structural recursion); returns the first FF m with m not in {00, FF} at or after the cursor; consumes exactly up to it;
+   discarded_bytes = non-FF bytes skipped + one more per stuffed zero (FF fill bytes are not counted); no marker = data ran out *)
+Theorem C16_next_marker_spec : forall bs,
+  match next_marker_full bs with
+  | Some (m, d, rest) =>
+      exists pre, bs = pre ++ 255 :: m :: rest /\ m <> 0 /\ m <> 255 /\
+                  clean false (pre ++ [255]) /\
+                  d = nonff pre + stuffed false pre /\
+                  length bs = (length pre + 2 + length rest)%nat
+  | None => clean false bs
+  end.
+Proof. exact next_marker_spec. Qed.
+Print Assumptions C16_next_marker_spec.
+Theorem C16_first_marker_spec : forall bs,
+  (forall r, first_marker bs = FOk r <-> bs = 255 :: M_SOI :: r) /\ (first_marker bs = FSuspend <-> (length bs < 2)%nat).
+Proof. exact first_marker_spec. Qed.
+Print Assumptions C16_first_marker_spec.
+Example C16_ex_scan_junk : next_marker_full [1; 2; 255; 255; 0; 7; 255; 255; 254; 0; 2] = Some (254, 5, [0; 2]).
+Proof. exact ex_scan_junk. Qed.
 
 (* ---- non-vacuity: the hypotheses above are satisfiable by concrete non-trivial values *)
 Example C16_ex_icc_two_segments : ex_two_check = true.
